@@ -41,21 +41,26 @@ def expect_td(d, k):
 
 
 def stub_class_sizes(stubs):
-    """ClassStub list of ReplaceTypedDictsWithStubs -> {class name: total number of keys incl. inherited}"""
-    own, base = {}, {}
+    """ClassStub list of ReplaceTypedDictsWithStubs (emission order) -> [(class name, total number of keys incl. inherited)],
+    one entry per generated TypedDict; a `...NonTotal` class subsumes the base emitted just before it.  Two classes may
+    carry the same name (the C11 class-name-collision finding): they are counted separately here."""
+    out = []            # [name, total, subsumed?]
+    last = {}           # name -> index in out of the latest class with that name
     for s in stubs:
         m = re.match(r"^(\w+)\((\w+)(, total=False)?\)$", s.name)
         if not m:
             raise ValueError("unexpected class stub header %r" % s.name)
-        own[m.group(1)] = len(list(s.attribute_stubs))
-        base[m.group(1)] = m.group(2)
-    tot = {}
-    for n in own:
-        b = base[n]
-        tot[n] = own[n] + (own.get(b, 0) if b != "TypedDict" else 0)
-    # a ...NonTotal class subsumes its base: report only the most derived of each pair
-    bases = {b for b in base.values()}
-    return {n: v for n, v in tot.items() if n not in bases}
+        name, base = m.group(1), m.group(2)
+        own = len(list(s.attribute_stubs))
+        if base != "TypedDict":
+            if base not in last:
+                raise ValueError("class stub %r before its base" % s.name)
+            b = out[last[base]]
+            b[2] = True
+            own += b[1]
+        last[name] = len(out)
+        out.append([name, own, False])
+    return [(n, v) for n, v, sub in out if not sub]
 
 
 def direct(eng, objs, ds, k, t=None):
@@ -93,7 +98,7 @@ def direct(eng, objs, ds, k, t=None):
         sizes = stub_class_sizes(stubs)
         if k == 0 and stubs:
             bad.append("stub-zero: class stubs emitted at limit 0")
-        for n, v in sizes.items():
+        for n, v in sizes:
             if v > k or v == 0:
                 bad.append("stub-size: class %s has %d keys at limit %d" % (n, v, k))
         if len(sizes) != len(nodes):
